@@ -54,11 +54,15 @@ def run(tier, seed, replay=None):
         vlib.tlc_expect_ok(res, mod)
     T = tissues()
     shifts = [[1e-7, 0, 0], [R / 3, -R / 7, R / 5], [2.0 ** -17, 2.0 ** -16, -2.0 ** -18], [-3 * R, -3 * R, -3 * R], [4e-3, -4e-3, 4e-3]]
+    # translations along ONE axis, or with very different components, by many tissue sizes: a coordinate of the wrong axis in one of three
+    # parallel lines only shows when the components of the position differ by more than the tissue is wide (every earlier translation
+    # had its largest component along x, or all three equal)
+    axial = [[0, 40 * R, 0], [-9 * R, 0, 35 * R], [0, -50 * R, 12 * R], [30 * R, 0, 0]]
     if tier == "thorough":
         shifts += [[rnd.uniform(-1, 1) * 10 ** rnd.uniform(-7, -2.4) for _ in range(3)] for _ in range(12)] + [[1.234567e-6, 0, 0], [0, 0, -8.5e-6], [5.5e-6, 5.5e-6, 5.5e-6]]
     pairs = []
     for name, cells in T.items():
-        for j, t in enumerate(shifts if tier == "thorough" else rnd.sample(shifts, 3) + [shifts[4]]):
+        for j, t in enumerate(shifts + axial if tier == "thorough" else rnd.sample(shifts[:4], 1) + [shifts[4]] + axial[:2]):
             pairs.append((name, j, t))
     if replay:
         with open(replay) as f:
